@@ -479,14 +479,21 @@ def run(ctx):
     # copy-data: work must be bounded by the source (the cap stands in for the disk filling up)
     if 'copy' in stage_res:
         flagged = set()
-        for cs in stage_res['copy']['cases']:
+        hows = stage_res['copy'].get('hows') or []
+        for i, cs in enumerate(stage_res['copy']['cases']):
             same = cs.startswith('((true')
-            if cs.endswith('true))') and same not in flagged:
-                flagged.add(same)
-                ctx.failing_input('SFTP copy-data never finishes (%s): stopped by the harness cap on read calls; case (same file, '
-                                  'size, read offset, length, write offset, cap), (reads, bytes written, capped) = %s' %
-                                  ('source and destination are the same file' if same else 'DIFFERENT files', cs),
-                                  {'kind': 'copy_spin', 'same_file': same, 'case': cs, 'seed': ctx.seed, 'tier': ctx.tier})
+            how = hows[i] if i < len(hows) else ('two_opens' if same else 'distinct')
+            if cs.endswith('true))') and (same, how) not in flagged:
+                flagged.add((same, how))
+                ctx.failing_input('SFTP copy-data never finishes (%s; handles: %s): stopped by the harness cap on read calls; case '
+                                  '(same file, size, read offset, length, write offset, cap), (reads, bytes written, capped) = %s' %
+                                  ('source and destination are the same file' if same else 'DIFFERENT files', how, cs),
+                                  {'kind': 'copy_spin', 'same_file': same, 'how': how, 'case': cs, 'seed': ctx.seed, 'tier': ctx.tier})
+        hs = set(hows)
+        for how in ('same_handle', 'two_opens', 'hardlink', 'symlink', 'renamed_after_open', 'unlinked_after_open',
+                    'replaced_after_open', 'equal_names_other_dir', 'distinct'):
+            if how not in hs:
+                ctx.broke('vacuity:copy.' + how, 'no copy-data case with handles related by ' + how)
 
     # ---- banner correspondence --------------------------------------------------------------------
     bcases = []
@@ -699,7 +706,7 @@ except Exception as e:
 def socks_O(ctx=None):
     """python -O: 05 00 -> must return (it used to loop for ever).  Returns 'returned' | 'raised X' | 'hang'."""
     try:
-        p = subprocess.run([core.PY, '-O', '-c', SOCKS_O % core.REPO], capture_output=True, text=True, timeout=8)
+        p = subprocess.run([core.PY, '-O', '-c', SOCKS_O % core.REPO], capture_output=True, text=True, timeout=40)
         out = p.stdout.strip() or ('error: ' + p.stderr[-300:])
     except subprocess.TimeoutExpired:
         out = 'hang'
@@ -739,8 +746,10 @@ def replay(rp):
                 return 1
             if 'res' in rec:
                 if kind == 'copy_spin':
-                    still = [c for c in rec['res']['cases'] if c.endswith('true))') and
-                             c.startswith('((true') == bool(rp.get('same_file', True))]
+                    hows = rec['res'].get('hows') or []
+                    still = [c for i, c in enumerate(rec['res']['cases']) if c.endswith('true))') and
+                             c.startswith('((true') == bool(rp.get('same_file', True)) and
+                             (rp.get('how') is None or i >= len(hows) or hows[i] == rp['how'])]
                     print('replay: capped copy-data cases:', still[:2])
                     return 1 if still else 0
                 for func, data, exc in rec['res'].get('bad', []):
